@@ -59,6 +59,7 @@ type Options struct {
 	// Extra raw module balances (module name -> coins) added to bank genesis.
 	ModuleBalances map[string]sdk.Coins
 	ChainID        string
+	BondDenom      string
 }
 
 type Env struct {
@@ -69,11 +70,6 @@ type Env struct {
 	ValSet   *tmtypes.ValidatorSet
 	Genesis  c4eapp.GenesisState
 	StateRaw []byte
-}
-
-func init() {
-	// same bech32 prefixes as the real binary
-	appparams.SetAddressPrefixes()
 }
 
 func newApp() *c4eapp.App {
@@ -99,6 +95,10 @@ func DefaultMinterGenesis() *cfemintertypes.GenesisState {
 
 func New(opts Options) *Env {
 	app := newApp()
+	bondDenom := opts.BondDenom
+	if bondDenom == "" {
+		bondDenom = BondDenom
+	}
 	encoding := c4eapp.MakeEncodingConfig()
 	genesisState := c4eapp.NewDefaultGenesisState(encoding.Marshaler)
 	cdc := app.AppCodec()
@@ -112,7 +112,7 @@ func New(opts Options) *Env {
 	delegator := NewUser("delegator")
 	genAccs := []authtypes.GenesisAccount{authtypes.NewBaseAccount(delegator.Addr, delegator.Priv.PubKey(), 0, 0)}
 	users := map[string]User{"delegator": delegator}
-	balances := []banktypes.Balance{{Address: delegator.Bech32(), Coins: sdk.NewCoins(sdk.NewCoin(BondDenom, sdk.NewInt(1000000)))}}
+	balances := []banktypes.Balance{{Address: delegator.Bech32(), Coins: sdk.NewCoins(sdk.NewCoin(bondDenom, sdk.NewInt(1000000)))}}
 	for _, u := range opts.Users {
 		users[u.Name] = u
 		genAccs = append(genAccs, authtypes.NewBaseAccount(u.Addr, u.Priv.PubKey(), 0, 0))
@@ -140,12 +140,12 @@ func New(opts Options) *Env {
 	}
 	delegations := []stakingtypes.Delegation{stakingtypes.NewDelegation(delegator.Addr, val.Address.Bytes(), sdk.OneDec())}
 	stakingParams := stakingtypes.DefaultParams()
-	stakingParams.BondDenom = BondDenom
+	stakingParams.BondDenom = bondDenom
 	genesisState[stakingtypes.ModuleName] = cdc.MustMarshalJSON(stakingtypes.NewGenesisState(stakingParams, []stakingtypes.Validator{validator}, delegations))
 
 	balances = append(balances, banktypes.Balance{
 		Address: authtypes.NewModuleAddress(stakingtypes.BondedPoolName).String(),
-		Coins:   sdk.Coins{sdk.NewCoin(BondDenom, bondAmt)},
+		Coins:   sdk.Coins{sdk.NewCoin(bondDenom, bondAmt)},
 	})
 	totalSupply := sdk.NewCoins()
 	for _, b := range balances {
@@ -214,7 +214,7 @@ func Try(f func()) (panicked string) {
 // then the routed handler on a cache context which is written back only on
 // success.  Returns outcome "ok" | "rejected" | "panic", the error / panic text
 // and the events of the successful execution.
-func (e *Env) Deliver(ctx sdk.Context, msg sdk.Msg) (outcome string, detail string, events sdk.Events, res *sdk.Result) {
+func (e *Env) Deliver(ctx sdk.Context, msg sdk.Msg) (outcome string, detail string, events []abci.Event, res *sdk.Result) {
 	if p := Try(func() {
 		if err := msg.ValidateBasic(); err != nil {
 			outcome, detail = "rejected", "validate-basic: "+err.Error()
@@ -239,7 +239,11 @@ func (e *Env) Deliver(ctx sdk.Context, msg sdk.Msg) (outcome string, detail stri
 		return "rejected", "handler: " + err.Error(), nil, nil
 	}
 	write()
-	return "ok", "", cctx.EventManager().Events(), res
+	// the message service router runs the handler on a fresh event manager and returns its events in the result
+	if res != nil {
+		events = res.Events
+	}
+	return "ok", "", events, res
 }
 
 // Gov is the governance authority address.
